@@ -88,15 +88,21 @@ func unwrappedLabel(m *logq.MetricQuery) string {
 	return ""
 }
 
-type verdict struct {
-	kind, detail string
-	decided      bool
-	sqlCompared  bool
-	nexp         int
-	out          *logq.Output
+type Verdict struct {
+	Kind, Detail string
+	Decided      bool
+	SQLCompared  bool
+	Nexp         int
+	Out          *logq.Output
 }
 
-func judge(rn *logq.Runner, db *logq.DB, ch *chsql.DB, req *logq.Request) verdict {
+func Judge(rn *logq.Runner, db *logq.DB, ch *chsql.DB, req *logq.Request) Verdict {
+	return JudgeOpts(rn, db, ch, req, true)
+}
+
+// JudgeOpts: sqlLevel=false skips the comparison at the SQL boundary (split pipelines: the
+// last statement is only the SQL half).
+func JudgeOpts(rn *logq.Runner, db *logq.DB, ch *chsql.DB, req *logq.Request, sqlLevel bool) Verdict {
 	m := req.Metric
 	dur := int64(m.Range)
 	from, to := req.StartNs, req.EndNs
@@ -104,41 +110,41 @@ func judge(rn *logq.Runner, db *logq.DB, ch *chsql.DB, req *logq.Request) verdic
 	exp, err := logq.EvalMetric(db, m, evalFrom, evalTo)
 	var probe *logq.ErrProbe
 	if errors.As(err, &probe) {
-		return verdict{detail: "probe: " + probe.Why}
+		return Verdict{Detail: "probe: " + probe.Why}
 	}
 	if err != nil {
-		return verdict{detail: "evaluator: " + err.Error()}
+		return Verdict{Detail: "evaluator: " + err.Error()}
 	}
 	// "widened at most to whole range buckets": at the two edge buckets the strict window is
 	// an equally valid reading, so both values are accepted there
 	strict, err := logq.EvalMetric(db, m, from, to)
 	if errors.As(err, &probe) {
-		return verdict{detail: "probe: " + probe.Why}
+		return Verdict{Detail: "probe: " + probe.Why}
 	}
 	if err != nil {
-		return verdict{detail: "evaluator: " + err.Error()}
+		return Verdict{Detail: "evaluator: " + err.Error()}
 	}
 	out := rn.Run(ch, req, 20*time.Second)
-	v := verdict{out: out}
+	v := Verdict{Out: out}
 	if out.TimedOut {
-		v.detail = "timeout"
+		v.Detail = "timeout"
 		return v
 	}
 	if out.Err != nil {
 		var raise *chsql.RaiseError
 		switch {
 		case errors.Is(out.Err, chsql.ErrUnsupported):
-			v.detail = "oracle: " + out.Err.Error()
+			v.Detail = "oracle: " + out.Err.Error()
 		case errors.As(out.Err, &raise):
-			v.kind, v.detail, v.decided = "sql-raises/"+raise.Rule, "ClickHouse would reject the generated statement: "+raise.Error(), true
+			v.Kind, v.Detail, v.Decided = "sql-raises/"+raise.Rule, "ClickHouse would reject the generated statement: "+raise.Error(), true
 		case len(out.Execs) == 0:
-			v.detail = "rejected before SQL: " + out.Err.Error()
+			v.Detail = "rejected before SQL: " + out.Err.Error()
 		default:
-			v.kind, v.detail, v.decided = "query-error", "the query failed after its SQL ran: "+out.Err.Error(), true
+			v.Kind, v.Detail, v.Decided = "query-error", "the query failed after its SQL ran: "+out.Err.Error(), true
 		}
 		return v
 	}
-	v.decided = true
+	v.Decided = true
 	unw := unwrappedLabel(m)
 	// expected points: judged buckets start before the window end
 	type bk struct {
@@ -179,9 +185,9 @@ func judge(rn *logq.Runner, db *logq.DB, ch *chsql.DB, req *logq.Request) verdic
 			}
 		}
 	}
-	v.nexp = len(judged)
+	v.Nexp = len(judged)
 	// ---- (i) SQL boundary, exact for step ≤ range
-	if int64(req.Step) <= dur && len(out.Execs) > 0 {
+	if sqlLevel && int64(req.Step) <= dur && len(out.Execs) > 0 {
 		last := out.Execs[len(out.Execs)-1]
 		if last.Result != nil {
 			ci := map[string]int{}
@@ -215,9 +221,9 @@ func judge(rn *logq.Runner, db *logq.DB, ch *chsql.DB, req *logq.Request) verdic
 					got = append(got, pt{key: normKey(labels, unw), ts: ts, v: val})
 				}
 				if okShape {
-					v.sqlCompared = true
+					v.SQLCompared = true
 					if k, d := diffPoints(judgedNonZero(judged), got); k != "" {
-						v.kind, v.detail = "sql-"+k, d
+						v.Kind, v.Detail = "sql-"+k, d
 						return v
 					}
 				}
@@ -239,7 +245,7 @@ func judge(rn *logq.Runner, db *logq.DB, ch *chsql.DB, req *logq.Request) verdic
 	for k, ps := range gotByKey {
 		es, ok := expByKey[k]
 		if !ok {
-			v.kind, v.detail = "out-unexpected-series", fmt.Sprintf("output series %s (e.g. value %v at %d) is not a series the definition produces; expected series: %v", k, ps[0].v, ps[0].ts, keys(expByKey))
+			v.Kind, v.Detail = "out-unexpected-series", fmt.Sprintf("output series %s (e.g. value %v at %d) is not a series the definition produces; expected series: %v", k, ps[0].v, ps[0].ts, keys(expByKey))
 			return v
 		}
 		for _, p := range ps {
@@ -251,7 +257,7 @@ func judge(rn *logq.Runner, db *logq.DB, ch *chsql.DB, req *logq.Request) verdic
 				}
 			}
 			if !found {
-				v.kind, v.detail = "out-wrong-value", fmt.Sprintf("series %s: output value %v at %d equals no bucket value of that series (bucket values: %v)", k, p.v, p.ts, vals(es))
+				v.Kind, v.Detail = "out-wrong-value", fmt.Sprintf("series %s: output value %v at %d equals no bucket value of that series (bucket values: %v)", k, p.v, p.ts, vals(es))
 				return v
 			}
 		}
@@ -275,7 +281,7 @@ func judge(rn *logq.Runner, db *logq.DB, ch *chsql.DB, req *logq.Request) verdic
 		}
 		if !ok {
 			// a series all of whose judged buckets start before `from` and are cut off by the grid is still expected: FixPeriod clamps idxFrom to 0
-			v.kind, v.detail = "out-missing-series", fmt.Sprintf("series %s with non-zero buckets %v is missing from the output (output series: %v)", k, vals(es), keys(gotByKey))
+			v.Kind, v.Detail = "out-missing-series", fmt.Sprintf("series %s with non-zero buckets %v is missing from the output (output series: %v)", k, vals(es), keys(gotByKey))
 			return v
 		}
 		if int64(req.Step) <= dur && from%dur == 0 && dur%int64(req.Step) == 0 {
@@ -289,7 +295,7 @@ func judge(rn *logq.Runner, db *logq.DB, ch *chsql.DB, req *logq.Request) verdic
 					}
 				}
 				if !found {
-					v.kind, v.detail = "out-missing-bucket", fmt.Sprintf("series %s: bucket %d with value %v is not represented in the output (output values: %v)", k, e.ts, e.v, vals(ps))
+					v.Kind, v.Detail = "out-missing-bucket", fmt.Sprintf("series %s: bucket %d with value %v is not represented in the output (output values: %v)", k, e.ts, e.v, vals(ps))
 					return v
 				}
 			}
@@ -423,7 +429,7 @@ func setKeys(m map[string]bool) []string {
 }
 
 // shrink removes query parts while the same kind of mismatch persists.
-func shrink(rn *logq.Runner, db *logq.DB, ch *chsql.DB, req logq.Request, kind string) logq.Request {
+func Shrink(rn *logq.Runner, db *logq.DB, ch *chsql.DB, req logq.Request, kind string) logq.Request {
 	cur := req
 	try := func(mut func(m *logq.MetricQuery) bool) bool {
 		m := *cur.Metric
@@ -434,7 +440,7 @@ func shrink(rn *logq.Runner, db *logq.DB, ch *chsql.DB, req logq.Request, kind s
 		}
 		t := cur
 		t.Metric = &m
-		if v := judge(rn, db, ch, &t); v.decided && v.kind == kind {
+		if v := Judge(rn, db, ch, &t); v.Decided && v.Kind == kind {
 			cur = t
 			return true
 		}
@@ -523,52 +529,52 @@ func Child(c *run.Ctx, name string) {
 		ch := db.Load(cluster)
 		shape := req.Shape()
 		c.BeginCase(gi, map[string]any{"query": req.QueryString(), "shape": shape})
-		v := judge(rn, db, ch, &req)
+		v := Judge(rn, db, ch, &req)
 		c.Case(fmt.Sprintf("%s|range%s|step%d|cluster=%v", shape, rangeClass(rng), stepK, cluster))
 		if i < 3 {
-			s := map[string]any{"query": req.QueryString(), "start": start, "end": end, "step": step.String(), "series": len(db.Series), "samples": len(db.Samples), "expected_points": v.nexp}
-			if v.out != nil && len(v.out.Execs) > 0 {
-				s["sql"] = clip(v.out.Execs[len(v.out.Execs)-1].SQL, 1500)
+			s := map[string]any{"query": req.QueryString(), "start": start, "end": end, "step": step.String(), "series": len(db.Series), "samples": len(db.Samples), "expected_points": v.Nexp}
+			if v.Out != nil && len(v.Out.Execs) > 0 {
+				s["sql"] = clip(v.Out.Execs[len(v.Out.Execs)-1].SQL, 1500)
 			}
 			c.Sample(s)
 		}
-		if !v.decided {
+		if !v.Decided {
 			switch {
-			case strings.HasPrefix(v.detail, "probe:"):
-				c.Cover("probes", v.detail, 1)
-			case strings.HasPrefix(v.detail, "rejected before SQL"):
-				c.Cover("not-judged", clip(v.detail, 120), 1)
+			case strings.HasPrefix(v.Detail, "probe:"):
+				c.Cover("probes", v.Detail, 1)
+			case strings.HasPrefix(v.Detail, "rejected before SQL"):
+				c.Cover("not-judged", clip(v.Detail, 120), 1)
 			default:
-				c.Undecided(clip(v.detail, 80))
+				c.Undecided(clip(v.Detail, 80))
 			}
 			c.EndCase(gi)
 			continue
 		}
 		c.Extra("programs", gi+1)
 		c.Floor("queries compared after the Go post-processors", 0, 1)
-		if v.sqlCompared {
+		if v.SQLCompared {
 			c.Floor("queries compared at the SQL boundary", 0, 1)
 		}
 		if rng >= 15*time.Second {
 			c.Floor("queries above the 15 s shortcut threshold", 0, 1)
 		}
-		if v.nexp > 0 {
+		if v.Nexp > 0 {
 			c.Floor("non-empty expected results", 0, 1)
 		}
 		c.Cover("range function", req.Metric.Fn, 1)
-		if v.kind != "" {
+		if v.Kind != "" {
 			minReq := req
 			if shrunk < 25 {
 				shrunk++
-				minReq = shrink(rn, db, ch, req, v.kind)
+				minReq = Shrink(rn, db, ch, req, v.Kind)
 			}
-			mv := judge(rn, db, ch, &minReq)
+			mv := Judge(rn, db, ch, &minReq)
 			sqlText := ""
-			if mv.out != nil && len(mv.out.Execs) > 0 {
-				sqlText = mv.out.Execs[len(mv.out.Execs)-1].SQL
+			if mv.Out != nil && len(mv.Out.Execs) > 0 {
+				sqlText = mv.Out.Execs[len(mv.Out.Execs)-1].SQL
 			}
-			c.Violation(v.kind+"/"+minReq.SigShape()+"/range"+rangeClass(rng), fmt.Sprintf("query %s over [%d,%d) step %s: %s", minReq.QueryString(), start, end, step, mv.detail),
-				map[string]any{"case_index": gi, "query": minReq.QueryString(), "original_query": req.QueryString(), "original_detail": v.detail, "request": minReq, "db": db, "cluster": cluster, "sql": sqlText})
+			c.Violation(v.Kind+"/"+minReq.SigShape()+"/range"+rangeClass(rng), fmt.Sprintf("query %s over [%d,%d) step %s: %s", minReq.QueryString(), start, end, step, mv.Detail),
+				map[string]any{"case_index": gi, "query": minReq.QueryString(), "original_query": req.QueryString(), "original_detail": v.Detail, "request": minReq, "db": db, "cluster": cluster, "sql": sqlText})
 		}
 		c.EndCase(gi)
 	}
@@ -601,17 +607,17 @@ func Replay(c *run.Ctx, path string) {
 	}
 	req, db := doc.Case.Request, doc.Case.DB
 	rn := logq.NewRunner(doc.Case.Cluster, true)
-	v := judge(rn, &db, db.Load(doc.Case.Cluster), &req)
+	v := Judge(rn, &db, db.Load(doc.Case.Cluster), &req)
 	fmt.Println("query:", req.QueryString(), "window", req.StartNs, req.EndNs, "step", req.Step)
-	fmt.Println("verdict:", v.kind, "|", v.detail)
+	fmt.Println("verdict:", v.Kind, "|", v.Detail)
 	dur := int64(req.Metric.Range)
 	exp, err := logq.EvalMetric(&db, req.Metric, req.StartNs/dur*dur, req.EndNs/dur*dur+dur)
 	fmt.Println("expected (widened):", err)
 	for _, p := range exp {
 		fmt.Printf("  %s @%d = %v\n", p.Key, p.Ts, p.Value)
 	}
-	if v.out != nil {
-		for _, e := range v.out.Execs {
+	if v.Out != nil {
+		for _, e := range v.Out.Execs {
 			fmt.Println("SQL:", e.SQL)
 			if e.Err != nil {
 				fmt.Println("  error:", e.Err)
@@ -627,12 +633,12 @@ func Replay(c *run.Ctx, path string) {
 			}
 		}
 		fmt.Println("output entries:")
-		for _, e := range v.out.Entries {
+		for _, e := range v.Out.Entries {
 			fmt.Printf("  %s @%d = %v\n", logq.CanonLabels(e.Labels), e.TimestampNS, e.Value)
 		}
 	}
 	c.Case("replay")
-	if v.kind != "" {
-		c.Violation(v.kind+"/"+req.SigShape(), v.detail, doc.Case)
+	if v.Kind != "" {
+		c.Violation(v.Kind+"/"+req.SigShape(), v.Detail, doc.Case)
 	}
 }
